@@ -51,6 +51,14 @@ def pairs(tier):
         # set_index with user divisions: npartitions hints are irrelevant there, but shuffle knobs apply
         out.append((P("L.set_index('a', divisions=[-50, 0, 50])"), "L.set_index('a', divisions=[-50, 0, 50], max_branch=2)", "set_index-knobs"))
         out.append((P("L.set_index('a', divisions=[-50, 0, 50])"), "L.set_index('a', divisions=[-50, -1, 0, 1, 50])", "set_index-divisions-layout"))
+        # merges on differently named keys (the shuffle / broadcast code paths name the two keys separately)
+        for m in (1, 2, 4) if tier == "quick" else (1, 2, 3, 4, 6):
+            srcR2 = Src("R", m, RCOLS, m, how="delayed", cuts=tuple(range(m + 1)))
+            for how in ("inner", "left", "right"):
+                base = f"L.merge(R, left_on='c', right_on='e', how={how!r})"
+                for kw in ["broadcast=True", "broadcast=False", "npartitions=3"]:
+                    out.append((P(base, [srcL, srcR2]), f"L.merge(R, left_on='c', right_on='e', how={how!r}, {kw})", "merge-knobs-keys"))
+                    out.append((P(f"R.merge(L, left_on='e', right_on='c', how={how!r})", [srcL, srcR2]), f"R.merge(L, left_on='e', right_on='c', how={how!r}, {kw})", "merge-knobs-keys-swapped"))
         # merges: broadcast vs hash join, npartitions hint
         for m in (1, 2, 4) if tier == "quick" else (1, 2, 3, 4, 6):
             srcR = Src("R", m, RCOLS, m, how="delayed", cuts=tuple(range(m + 1)))
